@@ -18,7 +18,8 @@ META = {
         "decomposition (shared with C12), only error placeholders - never the "
         "undefined ones - staged by the marker walk, and the hand-down chain "
         "of orig_desc / source / orig_index from PLSSDesc through PLSSParser "
-        "to each Tract (counter from 0, +1 per tract)."),
+        "to each Tract (counter from 0, +1 per tract)."
+        ' Also: Tract.__init__ stores source / orig_desc / orig_index as given (no truthiness filter), emitted Twp/Rge digits fit the TRS unpacker, parallel twp/rge/sec clauses are pure.'),
     'families': ['SIB', 'DEFUSE', 'RX-LANG', 'TBL', 'FORWARD', 'DEADPARAM', 'SIB-DEFAULTS'],
 }
 
